@@ -388,12 +388,63 @@ def t09_hhea(run, fx):
                  "writes has one long metric per glyph: hhea and hmtx disagree in the instance", "%s:%s" % (b.file, b.line))
 
 
+# ---- T09-ADD: a table handed to the builder is in the font -------------------------------------------------------------------------
+def _ok_blocks(b):
+    out = []
+    for bi, blk in enumerate(b.blocks):
+        if not b.reachable(bi):
+            continue
+        for st in blk["s"]:
+            if st["k"] == "assign" and st["p"]["l"] == 0 and not st["p"]["p"] and st["rv"]["k"] == "agg" and st["rv"].get("vname") == "Ok":
+                out.append(bi)
+    for bi, t in b.calls():
+        # a result forwarded from a callee (`self.add_table_inner(..)` as the tail expression)
+        if t.get("dest") and t["dest"]["l"] == 0 and not t["dest"]["p"] and not str(t["callee"].get("path") or "").endswith("FromResidual::from_residual"):
+            out.append(bi)
+    return out
+
+
+def t09_add(run, fx, floors=True):
+    import reach
+    rule = "T09-ADD"
+    run.rule(rule, "every table handed to the font builder is in the font that is written: in FontBuilder::add_table_inner every path to an Ok result "
+                   "passes the insertion into the table map, and in every other add_* function of FontBuilder / FontBuilderWithHead every path to an Ok "
+                   "result passes a call that stores the table (add_table_inner / add_table). A table that is silently left out (an empty glyf next to a "
+                   "loca that is written) makes the output inconsistent while the call reports success")
+    n = 0
+    for b in fx.bodies:
+        if b.kind == "Closure" or not re.match(r"^subset::FontBuilder(WithHead)?::add_\w+$", b.root):
+            continue
+        oks = _ok_blocks(b)
+        if not oks:
+            continue
+        short = b.root.split("::", 1)[1]
+        if b.root.endswith("::add_table_inner"):
+            through = [bi for bi, t in b.calls() if str(t["callee"].get("path") or "").endswith("BTreeMap::<K, V, A>::insert") or str(t["callee"].get("path") or "").endswith("::insert")]
+            what = "the insertion into the table map"
+        else:
+            through = [bi for bi, t in b.calls() if callee_is(t, "add_table_inner", "FontBuilder::add_table")]
+            what = "a call of add_table_inner / add_table"
+        n += 1
+        if not through:
+            run.fail(rule, "add:%s:missing" % short, "%s has an Ok result but never reaches %s" % (b.path, what), "%s:%s" % (b.file, b.line))
+        elif reach.must_pass(b, 0, oks, through):
+            run.ok(rule, "%s: every Ok result passes %s" % (short, what))
+        else:
+            run.fail(rule, "add:%s:bypass" % short, "a path to an Ok result of %s bypasses %s: the caller is told the table was added and the font is written without it" % (b.path, what),
+                     "%s:%s" % (b.file, b.line))
+    if floors:
+        run.floor(rule, "add_* functions of the font builder", n, 4)
+
+
 def check(run, fx, tier, floors=True):
     if floors:
         # a subset or instanced CFF font starts with the header the writer emits: its announced size must be the size written (shared with C15)
         import rules_C15
         rules_C15.c15_s(run, fx, floors)
     t09_prod(run, fx)
+    if floors or any(b.root.endswith('FontBuilder::add_table_inner') for b in fx.bodies):
+        t09_add(run, fx, floors)
     t09_order(run, fx)
     t09_sum(run, fx)
     t09_rec(run, fx)
